@@ -10,7 +10,7 @@ from vlib import core, gen, sched, gosrc
 PROP = "C09"
 META = {
     "technique": "Coq proof: slot-ownership invariant (the location lists are a permutation of all slots) by induction over all histories, allocation choices and fault patterns - at API granularity (Model/Accounting.v) and at the granularity of the code's critical sections with every interleaving of user threads and both event loops (Model/AccountingConc.v); quiescence corollaries; tie: differential execution of BOTH models against real session pairs (sequential ops compared after every op, concurrent traffic phases compared at the following quiescent point) + independent in-use==0 oracle, also after phases in which closes race with the peer's flushes; plus mechanism S for the event-loop/owner hand-off: the real Stream.fillDataToReadBuffer and Stream.Close as controlled threads (instrumented stream.go, pendingData mutex as scheduling point) under every single-pre-emption schedule, with the leak oracle after each and the observed access order (pendingData.add before the state re-check) compared with the model's LoopAdd/LoopCheck order",
-    "level_text": "C09_inv / C09_inv_interleaved (every slot in exactly one location, for every history resp. every interleaving of critical sections, every allocation outcome and fault pattern) and C09 / C09_interleaved (once every stream is closed on both ends - every close() has returned, both event loops are between elements -, nothing is in flight and the application holds nothing, every slot is free) hold unconditionally - for histories that include writes, Reserve, ReleaseReadAndReuse and flushes AFTER a stream's Close - for the tree whose recycle() cleans the pinned list and whose write operations refuse to allocate for a closed stream (switches sw_recycle_cleans_pinned / sw_write_after_close_rejected regenerated from buffer.go on every run; Props/C09.v stops compiling when one of them is off, and the harness then shows the leaking history). The former defect (pinned slices leaked at Close: 4096 B stayed in use) is repaired by a234a74; its history stays as directed case 0 of every run and as a regression Example about the old-code variant of the model.",
+    "level_text": "C09_inv / C09_inv_interleaved (every slot in exactly one location, for every history resp. every interleaving of critical sections, every allocation outcome and fault pattern) and C09 / C09_interleaved (once every stream is closed on both ends - every close() has returned, both event loops are between elements -, nothing is in flight and the application holds nothing, every slot is free) hold unconditionally - for histories that include writes, Reserve, ReleaseReadAndReuse and flushes AFTER a stream's Close - for the tree whose recycle() cleans the pinned list and whose write side takes no shared memory for a closed stream (switches sw_recycle_cleans_pinned / sw_write_after_close_rejected regenerated from buffer.go on every run; Props/C09.v stops compiling when one of them is off, and the harness then shows the leaking history). The former defect (pinned slices leaked at Close: 4096 B stayed in use) is repaired by a234a74; its history stays as directed case 0 of every run and as a regression Example about the old-code variant of the model.",
     "level_note": "Trusted: coqc kernel; allocation and slice sizes are inputs of the model (the allocator itself is C01/C02's subject); the fine-grained model keeps Write/Flush/Release/Reuse atomic (they touch owner-local buffers, the free lists - atomic per slot, C01/C02 - and one atomic queue put) and assumes one owner thread per stream object; socket events (fallback data, close notification) carry no slots and are delivered in one step; correspondence is sampled; event-loop delivery is waited for with generous bounds.",
 }
 
@@ -41,36 +41,44 @@ def scan_pinned(src):
 
 
 def scan_write_guard(src):
-    """do WriteByte / WriteBytes / Reserve refuse to allocate for a closed stream?"""
-    guarded = []
-    for fn in ("WriteByte", "WriteBytes", "Reserve"):
+    """do the two places where the write side takes shared memory (linkedBuffer.alloc, step 3 of Reserve) skip it
+    for a stream that has been closed?"""
+    def closed_cond(expr, body):
+        expr = expr.strip()
+        if "getStreamState() == uint32(streamClosed)" in expr:
+            return True
+        m = re.fullmatch(r"l\.(\w+)\(\)", expr)
+        if m:
+            hm = re.search(r"func \(l \*linkedBuffer\) %s\(\) bool \{(.*?)\n}\n" % m.group(1), src, re.S)
+            return bool(hm) and "getStreamState() == uint32(streamClosed)" in strip_comments(hm.group(1))
+        if re.fullmatch(r"\w+", expr):      # a local: closed := l.helper()
+            d = re.search(r"\b%s := ([^\n]+)" % expr, body)
+            return bool(d) and closed_cond(d.group(1), "")
+        return False
+
+    res = []
+    for fn, call in (("alloc", r"buf, err := l\.bufferManager\.allocShmBuffer\(size\)"),
+                     ("Reserve", r"buf, err :?= l\.bufferManager\.allocShmBuffer\(uint32\(size\)\)")):
         m = re.search(r"func \(l \*linkedBuffer\) %s\([^)]*\)[^{\n]*\{(.*?)\n}\n" % fn, src, re.S)
         if not m:
             return None, None, "cannot find linkedBuffer.%s in buffer.go" % fn
         body = strip_comments(m.group(1))
-        g = re.search(r"if ([^{\n]+) \{\s*return [^\n]*ErrStreamClosed\s*\}", body)
-        if not g:
-            if "ErrStreamClosed" in body or "streamClosed" in body:
-                return None, None, "linkedBuffer.%s mentions the closed state in a way the translator does not know" % fn
-            guarded.append(False)
-            continue
-        cond = g.group(1).strip()
-        # the guard must come before the first allocation
-        if body.index(g.group(0)) > min([body.index(x) for x in ("l.alloc(", "allocShmBuffer(") if x in body] or [10 ** 9]):
-            return None, None, "linkedBuffer.%s checks the closed state only after it has allocated" % fn
-        ok = "getStreamState() == uint32(streamClosed)" in cond
-        h = re.fullmatch(r"l\.(\w+)\(\)", cond)
-        if not ok and h:
-            hm = re.search(r"func \(l \*linkedBuffer\) %s\(\) bool \{(.*?)\n}\n" % h.group(1), src, re.S)
-            ok = bool(hm) and "getStreamState() == uint32(streamClosed)" in strip_comments(hm.group(1))
-        if not ok:
-            return None, None, "linkedBuffer.%s returns ErrStreamClosed under a condition the translator does not know: %s" % (fn, cond)
-        guarded.append(True)
-    if all(guarded):
-        return True, "WriteByte / WriteBytes / Reserve return ErrStreamClosed for a closed stream before allocating", None
-    if not any(guarded):
-        return False, "WriteByte / WriteBytes / Reserve have no state check: a write after Close allocates shared memory", None
-    return None, None, "only some of WriteByte / WriteBytes / Reserve check the closed state: %s" % guarded
+        if len(re.findall(r"allocShmBuffer\(", body)) != 1 or not re.search(call, body):
+            return None, None, "linkedBuffer.%s does not take shared memory the way the model mirrors (one allocShmBuffer call)" % fn
+        g = re.search(r"if !([^{\n]+) \{\s*" + call, body)
+        if g:
+            if not closed_cond(g.group(1), body):
+                return None, None, "linkedBuffer.%s guards its shared-memory allocation with a condition the translator does not know: %s" % (fn, g.group(1).strip())
+            res.append(True)
+        elif re.search(r"closed|streamClosed", body, re.I):
+            return None, None, "linkedBuffer.%s mentions the closed state in a way the translator does not know" % fn
+        else:
+            res.append(False)
+    if all(res):
+        return True, "linkedBuffer.alloc and Reserve take no shared memory for a stream that has been closed (heap slice instead)", None
+    if not any(res):
+        return False, "linkedBuffer.alloc / Reserve have no state check: a write after Close allocates shared memory", None
+    return None, None, "only one of linkedBuffer.alloc / Reserve checks the closed state: %s" % res
 
 
 def scan_fx():
@@ -92,7 +100,7 @@ def scan_fx():
 def write_switch(sw):
     txt = ("(* GENERATED from /repo's buffer.go by props/C09.py (mechanism G for the switches of Model/Accounting.v). Do not edit. *)\n"
            "(* sw_recycle_cleans_pinned: linkedBuffer.recycle() also cleans the pinned list. *)\n"
-           "(* sw_write_after_close_rejected: WriteBytes / WriteByte / Reserve return ErrStreamClosed for a closed stream instead of allocating. *)\n"
+           "(* sw_write_after_close_rejected: the write side takes no shared memory for a stream that has been closed (its writes go to heap slices). *)\n"
            "Definition sw_recycle_cleans_pinned : bool := %s.\n"
            "Definition sw_write_after_close_rejected : bool := %s.\n" % ("true" if sw[0] else "false", "true" if sw[1] else "false"))
     with core.Lock("coq"):
